@@ -72,6 +72,7 @@ type Ctl struct {
 	fromPeer []pframe       // frames not yet read by the client
 	sent     int            // bytes handed to the client's Read so far
 	peerGone bool
+	halfClosed bool // the peer ended its sending direction and stopped reading
 	nfault   int
 	recvExited bool
 	senderExited bool
